@@ -751,8 +751,18 @@ func (e *Engine) convert(st *State, v Value, from, to types.Type) Value {
 		}
 	}
 	if isString(from) {
-		if _, ok := under(to).(*types.Slice); ok {
-			e.abort("conversion string->slice is not modelled")
+		if sl, ok := under(to).(*types.Slice); ok {
+			txt, conc := v.(Str)
+			if w, _, isInt, _ := basicInfo(sl.Elem()); conc && isInt && w == 8 && txt.Code == nil && txt.Num == nil && txt.FNum == nil && txt.Fmt == nil {
+				el := make([]Value, len(txt.S))
+				for i := 0; i < len(txt.S); i++ {
+					el[i] = smt.BVC(uint64(txt.S[i]), 8)
+				}
+				cell := e.newCell()
+				st.heap[cell] = &ArrayV{E: el}
+				return Slice{Cell: cell, Lo: 0, Hi: len(el), Cap: len(el)}
+			}
+			e.abort("conversion string->slice is only modelled for concrete strings to []byte")
 		}
 	}
 	// pointer / named conversions
